@@ -115,11 +115,14 @@ def pair_residuals(E, A):
 #           N = 3..13; 2.5 .. 4e4 on uniform nodes).  The two inversions act one after
 #           the other on an O(eps) error, so they add.
 # Calibration (one particle: unchanged tree; 2-3 particles: tree with the axis-order
-# repair; seeds 0-4 quick and 0-1 thorough, Spectral and Uniform spacing): the largest
-# residual/(eps*(kappa_s+kappa_t)*scale) seen was 0.6 (basis change, N=11), median 0.05.
-# K = 64 leaves two orders of magnitude; every bookkeeping error (axis order, wrong
-# block, wrong truncation, missing inverse/transpose) is O(1e-3..1) of scale, i.e.
-# >= 1e8 tolerances on the spectral grids.
+# repair; seeds 0-4 quick and 0-1 thorough, Spectral and Uniform spacing, ~1.4e5 judged
+# basis changes, ~7e4 interpolations, ~7e4 loads): the largest residual/(eps*kappa*scale)
+# was 1.3 for a basis change and 0.45 for interpolation / end-to-end loads (kappa =
+# kappa_s + kappa_t); 97% of all comparisons lie within a factor 10 below those maxima.
+# K = 64 therefore leaves a factor 50 (basis change) / 140 (interpolation, load) above
+# the worst observation, while every bookkeeping error (axis order, wrong block, wrong
+# truncation, missing inverse or transpose) is 1e-7..1 of scale (1e-7: neighbouring
+# integer tags exchanged), i.e. >= 1e5 tolerances on the spectral grids.
 K_ACTION = 64.0
 
 
